@@ -30,7 +30,7 @@ from mistletoe.markdown_renderer import MarkdownRenderer          # noqa: E402
 
 CHUNK = 40              # cases per work item (fixed: independent of the number of workers)
 SHRINK_BUDGET = 250     # renderer evaluations per shrunk failure
-SHRINK_PER_CHUNK = 10   # failures shrunk per work item; the rest are reported unshrunk
+SHRINK_PER_CHUNK = 6    # failures shrunk per work item; the rest are reported unshrunk
 MAX_FAILURES = int(os.environ.get('VERIF_MAXFAIL', '400'))
 
 # Attribution of the spec examples that fail on the pinned tree (documentation only: nothing is
@@ -133,7 +133,7 @@ def classify(x, contract, nw, fails_without_nw, observed=None):
                 if _ncells(lines[j]) > max(_ncells(l), _ncells(lines[i + 1])):
                     return 'table-row-wider-than-header-widens-table'
                 j += 1
-    if contract == 'c09b' and re.search(r'^[> ]*#{1,6} +#+ *$', x, re.M):
+    if contract == 'c09b' and re.search(r'^[> ]*#{1,6}( +#+)+ *$', x, re.M):
         return 'empty-atx-heading-closing-sequence-lost-on-second-pass'
     if re.search(r'^[> ]*(?:[-+*]|\d{1,9}[.)]) *\n[> ]* +[^ \n]', x, re.M):
         return 'blank-first-line-item-joined-to-marker-line'
